@@ -24,10 +24,15 @@ def _sem_size_from_source():
 
 
 def project(trace):
-    """real trace (records) -> driver lines.  One line per observable action; `q` at every quiescent point."""
+    """real trace (records) -> driver lines.  One line per observable action; `q` at every quiescent point.
+    Done-callbacks: every release_transport call made from a callback is observed (`rel` by "?") and becomes `f <task>`;
+    asyncio.wait's completion callback is not observable from outside — it is registered right behind release_transport
+    on every awaited task, so the loop runs it right after it: a second `f <task>` is emitted for awaited tasks."""
     lines, snaps = ["reset"], []
     owner, started, gidx, nextg = {}, set(), {}, 0        # key -> global attempt; started attempts; task label -> global
     cstarted = False
+    entries = set()                                        # server keys currently in the real transports
+    awaited = set()                                        # attempts handle_client's final asyncio.wait waits for
     i, n = 0, len(trace)
 
     def tid(t):
@@ -44,12 +49,16 @@ def project(trace):
                 g = owner[r[2]]; gidx[t] = g; started.add(g); lines.append(f"a s{g} start")
             else: lines.append(f"a {t} start")
         elif k == "hook": lines.append(f"a {tid(r[1])} hook {r[2]}")
-        elif k == "hookret": lines.append(f"a {tid(r[1])} hookret {r[3]} {r[4]}")
+        elif k == "hookret":
+            lines.append(f"a {tid(r[1])} hookret {r[3]} {r[4]}")
+            if r[1] == "H" and r[2] == "cd":
+                awaited = {owner[key] for key in entries}
         elif k == "ev":
             cmds = []; j = i + 1; crashed = False
             while j < n and trace[j][0] not in ("evend", "crash"):
                 c = trace[j]
                 if c[0] == "cmd": cmds.append(c)
+                elif c[0] == "tset" and c[2] != "c": entries.add(c[2])
                 j += 1
             if j < n and trace[j][0] == "crash": crashed = True
             if crashed and cmds: cmds = cmds[:-1]             # the command that raised had no effect
@@ -60,22 +69,27 @@ def project(trace):
                     out.append(f"o{c[2]}:{ADDRID[c[3]]}")
                 elif c[1] == "hook": out.append("k")
             lines.append(f"a {tid(r[1])} ev {r[2]} {','.join(out) or '-'}")
-            # records inside the batch other than cmd (send, weof, wclose by close_connection: none) are effect-free here
             i = j
         elif k in ("semwait", "semacq", "semcancel", "semrel"): lines.append(f"a {tid(r[1])} {k}")
         elif k == "connret": lines.append(f"a {tid(r[1])} connret {r[2]}")
         elif k == "readret": lines.append(f"a {tid(r[1])} readret {r[2]}")
         elif k == "wclose":
             if r[1] != "?": lines.append(f"a {tid(r[1])} wclose")
+        elif k == "tset":
+            if r[2] != "c": entries.add(r[2])
         elif k == "tdel":
-            if r[1] == "?":                                   # the done-callback release_transport
+            entries.discard(r[2])
+        elif k == "rel":
+            if r[1] == "?":                                   # a done-callback
                 if r[2] == "c":
                     if not cstarted: lines.append("a C fin"); cstarted = True
-                    lines.append("f C")
+                    lines.append("f C")                       # release_transport
+                    lines.append("f C")                       # asyncio.wait([handler])'s completion callback
                 else:
-                    g = owner[r[2]]
+                    g = gidx[r[3]] if r[3] in gidx else owner[r[2]]
                     if g not in started: lines.append(f"a s{g} fin"); started.add(g)
                     lines.append(f"f s{g}")
+                    if g in awaited: lines.append(f"f s{g}")
         elif k == "end": lines.append(f"a {tid(r[1])} fin")
         elif k == "snap":
             lines.append("q"); snaps.append(r[1:])
@@ -286,8 +300,8 @@ class Check(PropertyCheck):
         return self._last["lines"]
 
     def model_obs(self, case, replies):
-        stuck = next((i for i, r in enumerate(replies[:-1]) if r not in ("ok",) and len(r.split()) != 9), None)
-        qs = [[int(x) for x in (r.split()[:5] + r.split()[6:8])] for r in replies[:-1] if len(r.split()) == 9]
+        stuck = next((i for i, r in enumerate(replies[:-1]) if r not in ("ok",) and len(r.split()) != 10), None)
+        qs = [[int(x) for x in (r.split()[:5] + r.split()[6:8])] for r in replies[:-1] if len(r.split()) == 10]
         qc = replies[-1]
         per = [] if qc in ("-",) else [[int(x) for x in c.split(",")[:4]] for c in qc.split(";")] if "," in qc else qc
         return {"stuck_at": stuck, "snaps": qs, "attempts": per}
